@@ -41,7 +41,10 @@ def make_trees(tmp, tier, seed):
     assembled from enumerated bodies (struct in the root file, packets referencing it)"""
     # crossref: type references in every direction between files (root -> subdirectory, sibling <-> sibling,
     # deep -> shallow, from nested case classes, with underlying-type overrides, from packets)
-    trees = [("realistic", os.path.join(VERIF, "specs", "realistic")), ("crossref", os.path.join(VERIF, "specs", "crossref"))]
+    trees = [("realistic", os.path.join(VERIF, "specs", "realistic")), ("crossref", os.path.join(VERIF, "specs", "crossref")),
+             # siblings: types used with and without an underlying-type override from sibling directories only (no root
+             # file resolves them first), so the resolution order follows the directory enumeration order
+             ("siblings", os.path.join(VERIF, "specs", "siblings"))]
     rng = random.Random(seed)
     src = trees[0][1]
     files = []
@@ -132,7 +135,7 @@ def run(tier, seed):
     try:
         trees = make_trees(tmp, tier, seed)
         hashseeds = [0, 1, 2] if tier == "quick" else [0, 1, 2, 3, 5, 8, 13, 21]
-        walkseeds = ["-", 1, 2] if tier == "quick" else ["-", 1, 2, 3, 4, 5]
+        walkseeds = ["-", "asc", "desc", 1] if tier == "quick" else ["-", "asc", "desc", 1, 2, 3, 4, 5]
         pys = [sys.executable] + (["/venv/bin/python"] if os.path.exists("/venv/bin/python") else [])
         for tname, spec in trees:
             base = None
